@@ -39,4 +39,7 @@ def obligations(tier, seed=0):
                 if a in ('iv', 'fp') and which in ('trap_complex', 'workprec', 'workdps', 'extraprec', 'extradps'):
                     continue
                 obs.append((FX + 'isolation', dict(a=a, b=b, which=which)))
+    if tier == 'thorough':
+        # the same with more time per obligation (the grid is already exhaustive over pairs and kinds of change)
+        obs = [(s_, dict(p_, _t=120)) for s_, p_ in obs]
     return obs
